@@ -1,6 +1,9 @@
 use mwv::{engines, Ctx, Tier};
 use std::io::Write;
 
+#[global_allocator]
+static GLOBAL: mwv::alloc::Counting = mwv::alloc::Counting;
+
 fn usage() -> ! {
     eprintln!("usage: mwv-worker <engine> [--seed N] [--shard I] [--nshards N] [--tier quick|thorough] [--replay INDEX] [--build NAME] [--scale F] [--arg S] [--out FILE]");
     std::process::exit(2)
